@@ -3,7 +3,7 @@
 which of them report a violation (seeded/RESULTS.json). /repo is restored after each seed."""
 import json, os, subprocess, sys, glob, re
 V='/verif'
-extra={'C01-m2':['C12'],'C01-m4':['C12'],'C02-m2':['C06'],'C17-m2':['C11']}
+extra={'C01-m2':['C12'],'C01-m4':['C12'],'C02-m2':['C06'],'C02-m4':['C06'],'C08-m4':['C03'],'C17-m2':['C11']}
 only=sys.argv[1:]
 res={}
 rp=f'{V}/seeded/RESULTS.json'
@@ -15,6 +15,10 @@ for d in sorted(glob.glob(f'{V}/seeded/C*-m*')):
     if only and sid not in only: continue
     meta=json.load(open(f'{d}/meta.json'))
     pid=sid.split('-')[0]
+    if meta.get('superseded'):
+        res[sid]={'summary':meta.get('summary',''),'checks':{},'superseded':meta['superseded']}
+        json.dump(res,open(rp,'w'),indent=1,sort_keys=True)
+        print(sid,'superseded'); continue
     r=sh(f'git -C /repo apply {d}/patch.diff')
     if r.returncode!=0:
         res[sid]={'summary':meta.get('summary',''),'checks':{},'error':'patch does not apply: '+r.stderr[:200]}
